@@ -9,10 +9,10 @@ import (
 
 // spec describes one iterator instance whose protocol is exercised.
 type spec[T comparable] struct {
-	name  string                        // catalogue name (key prefix)
-	label string                        // with parameters/input
-	build func(e *env) fp.Iterator[T]   // a fresh, deterministic instance
-	want  []T                           // reference sequence (a multiset when unordered)
+	name  string                      // catalogue name (key prefix)
+	label string                      // with parameters/input
+	build func(e *env) fp.Iterator[T] // a fresh, deterministic instance
+	want  []T                         // reference sequence (a multiset when unordered)
 	// self: the reference sequence is what a canonical drain (for HasNext { Next }) of a second
 	// fresh instance yields; used where the value semantics are not this property's subject
 	// (the applicative plumbing), so that only call-pattern independence is demanded.
